@@ -1275,6 +1275,7 @@ bool Node::verify_announce_pow(const protocol::AnnouncePayload& payload, std::ui
 void Node::rotate_session_keys(std::chrono::steady_clock::time_point now) {
     const auto peers = key_manager_.known_peers();
     for (const auto& peer : peers) {
+        std::scoped_lock key_lock(key_install_mutex_);
         if (const auto rotated = key_manager_.rotate_if_needed(peer, now)) {
             sessions_.register_peer_key(peer, *rotated);
         }
@@ -1965,6 +1966,7 @@ std::optional<ChunkData> Node::fetch_chunk(const ChunkId& chunk_id) {
 }
 
 void Node::register_shared_secret(const PeerId& peer_id, const crypto::Key& shared_secret) {
+    std::scoped_lock key_lock(key_install_mutex_);
     key_manager_.register_session(peer_id, shared_secret);
     if (const auto key = key_manager_.current_key(peer_id)) {
         sessions_.register_peer_key(peer_id, *key);
@@ -1976,6 +1978,7 @@ std::optional<std::array<std::uint8_t, 32>> Node::session_key(const PeerId& peer
 }
 
 std::optional<std::array<std::uint8_t, 32>> Node::rotate_session_key(const PeerId& peer_id) {
+    std::scoped_lock key_lock(key_install_mutex_);
     if (const auto rotated = key_manager_.rotate_if_needed(peer_id)) {
         sessions_.register_peer_key(peer_id, *rotated);
         return rotated;
@@ -2009,6 +2012,7 @@ bool Node::perform_handshake(const PeerId& peer_id,
     // Every accepted handshake (re)starts the session's key schedule: the peer does the same on
     // its side, and the two ends only stay on one key if they count rotations from the same event.
     const auto establish_session = [&] {
+        std::scoped_lock key_lock(key_install_mutex_);
         const auto shared_secret = network::KeyExchange::derive_shared_secret(identity_scalar_, remote_public_key);
         const auto material = make_handshake_material(identity_public_, remote_public_key);
         key_manager_.register_session_with_material(peer_id, shared_secret, material, now);
@@ -2273,11 +2277,14 @@ std::optional<network::SessionManager::OutboundHandshake> Node::build_transport_
 }
 
 bool Node::send_secure(const PeerId& peer_id, std::span<const std::uint8_t> payload) {
-    const auto key = key_manager_.current_key(peer_id);
-    if (!key.has_value()) {
-        return false;
+    {
+        std::scoped_lock key_lock(key_install_mutex_);
+        const auto key = key_manager_.current_key(peer_id);
+        if (!key.has_value()) {
+            return false;
+        }
+        sessions_.register_peer_key(peer_id, *key);
     }
-    sessions_.register_peer_key(peer_id, *key);
     return sessions_.send(peer_id, payload);
 }
 
